@@ -83,7 +83,7 @@ def main(tier):
         fut = ex.submit(growth, tier)          # scaled replays run beside the symbolic jobs
         return run_check(
             "C15", tier, jobs(tier), t0=t0,
-            bounds=dict(std_bounds(tier, relist=False), scale="witness families %s: stack depth measured at 64/128/256 atoms; scaled replay at the extrapolated failure size (<= 5000 atoms) or at a fixed large size when the depth does not grow" % FAMILIES),
+            bounds=dict(std_bounds(tier, relist=False), scale="witness families %s: stack depth measured at 64/128/256 atoms; scaled replay at the extrapolated failure size (<= 5000 atoms) or at a fixed large size when the depth does not grow; every scaled run has a 2 GiB address-space limit (RLIMIT_AS): the unchanged pipeline peaks near 0.15 GiB at these sizes" % FAMILIES),
             assumptions=STD_ASSUME + ["growth bridge: the symbolic engine decides small molecules only; sizes in the thousands are covered by measured stack-depth growth plus one real run per family in a fresh interpreter (default recursion limit %d) — an argument plus replay, not a solver verdict" % sys.getrecursionlimit()],
             outside=["sizes beyond the replayed witnesses", "families other than the listed ones", "graph_from_tucan on strings with symbolic numerals (the parse leg is exercised in the scaled replays and in C03/C10)"],
             explanation="no exception escapes graph_from_molecule/canonicalize_molecule/serialize_molecule for any molecule of the strata (all label values); plus stack-depth growth monitor and scaled replays (canonicalize, serialize, graph_from_tucan) per witness family",
